@@ -60,6 +60,23 @@ PROPS = {
         ],
         "not_covered": ["prove_all fan-in", "Vampire::prove", "STATUS regex", "--save-problems byte identity"],
     },
+    "C20": {
+        "units": ["files"],
+        "level": "other",
+        "property_obligations": ["Files::left", "Files::right", "Files::program", "Files::user_guide", "Files::proof_outline", "lemma_swap"],
+        "carriers": [],
+        "explanation": "Verus proves, for bucket vectors of any length, that the real accessors left/right/program/user_guide/proof_outline return "
+                       "exactly the element of the extension bucket the property names (first .lp = left/specification-when-no-.spec, second .lp = right/program, "
+                       "first .spec/.ug/.po), and the swap lemma. NOT decided by contracts: Files::sort (bucket choice by extension, argument order, "
+                       "directory order — WalkDir and the filesystem are outside both verifiers) and Files::specification (Option::or_else + constructor "
+                       "as function value, outside Verus' subset).",
+        "assumptions": [
+            "Files::sort is not under contract (walkdir crate, filesystem): argument-order and extension bucketing are NOT decided by this check",
+            "Files::specification is not under contract (Option::map(Either::Right).or_else(..) is outside Verus' subset)",
+            "std::path::PathBuf is an opaque external type",
+        ],
+        "not_covered": ["Files::sort", "Files::specification"],
+    },
 }
 
 
